@@ -77,6 +77,15 @@ def showFn (f : Fn Float) (behName : String) : String :=
 def behOfTag (tag : Nat) : String :=
   (["first", "cnt", "fail", "arr", "k0", "k1", "k2", "k3", "last", "ifthen"].find? (fun b => behTag b == tag)).getD "?"
 
+/-- builtins registered by `ext` (extend_environment) carry the tag of no test behaviour: shown as `b:<registered name>` -/
+def showFnOf (f : Fn Float) : String :=
+  let b := behOfTag f.tag
+  showFn f (if b == "?" then "b:" ++ String.ofList f.name else b)
+
+/-- the standard library as `extend_environment` registers it (one-based strings: the default build) -/
+def extStdlib (nm : String) : Option (List V → Except NativeError V) :=
+  (alGet (fold nm.toList) (Script.stdlibEnv ⟨Unicode.lowerStr, Unicode.upperStr⟩ 1).fns).map (·.run)
+
 def insertSorted (x : String) : List String → List String
   | [] => [x]
   | y :: ys => if x ≤ y then x :: y :: ys else y :: insertSorted x ys
@@ -96,17 +105,27 @@ partial def runEnvOps (s : StaticEnv Float) (r : List String) (acc : List String
     runEnvOps (s.addFunctions fold fs) r ("-" :: acc)
   | "rf" :: n :: r =>
     let (s', o) := s.removeFunction fold (unhex n)
-    runEnvOps s' r ((match o with | some f => "some " ++ showFn f (behOfTag f.tag) | none => "none") :: acc)
+    runEnvOps s' r ((match o with | some f => "some " ++ showFnOf f | none => "none") :: acc)
   | "gv" :: n :: r => runEnvOps s r ((match s.getVariable fold (unhex n) with | some v => "some " ++ showVal v | none => "none") :: acc)
   | "ve" :: n :: r => runEnvOps s r (tf (s.variableExists fold (unhex n)) :: acc)
-  | "cl" :: n :: k :: r => do let (args, r) ← parseN parseVal k.toNat! r []; runEnvOps s r (showNRes (s.call fold (unhex n) args) :: acc)
+  | "cl" :: n :: k :: r => do
+    let (args, r) ← parseN parseVal k.toNat! r []
+    let res := s.call fold (unhex n) args
+    let shown := match res with | .error (.custom m) => if m == Script.marker then "UNMODELLED" else showNRes res | _ => showNRes res
+    runEnvOps s r (shown :: acc)
+  -- `ext k <k function descriptions b:<name>>`: `extend_environment` = add_functions(builtins()); the harness lists what it registers
+  | "ext" :: k :: r => do
+    let (ds, r) ← parseN parseFnDesc k.toNat! r []
+    let fs ← ds.mapM (mkFn extStdlib)
+    runEnvOps (s.addFunctions fold fs) r ("-" :: acc)
   | "fe" :: n :: k :: r => runEnvOps s r (showFnRes (s.functionExists fold (unhex n) k.toNat!) :: acc)
   | "lf" :: r =>
-    let l := (s.listFunctions.map fun f => showFn f (behOfTag f.tag)).foldl (fun a x => insertSorted x a) []
+    let l := (s.listFunctions.map showFnOf).foldl (fun a x => insertSorted x a) []
     runEnvOps s r (("[" ++ String.intercalate " " l ++ "]") :: acc)
   | _ => none
 
-def runEnv (r : List String) : Option String := (runEnvOps StaticEnv.empty r []).map (String.intercalate " , ")
+def runEnv (r : List String) : Option String :=
+  (runEnvOps StaticEnv.empty r []).map fun l => if l.contains "UNMODELLED" then "unmodelled" else String.intercalate " , " l
 
 /-- Bool version of `Opt.Foldable` (the property's notion of a constant-foldable node) -/
 def foldableB (env : Env Float) : Ex → Bool
